@@ -35,10 +35,12 @@ fn render(buys: &[Buy], t_precision: bool) -> String {
 type Bal = BTreeMap<String, Decimal>;
 
 /// Some(per-account value in T) or None when some needed rate is missing
-fn twin(buys: &[Buy], now: Option<NaiveDate>, t_precision: bool) -> Option<Bal> {
+fn twin(all_buys: &[Buy], now: Option<NaiveDate>, t_precision: bool, range: (Option<u32>, Option<u32>)) -> Option<Bal> {
+    // prices come from the whole ledger; only transactions dated in [start, end) are reported
+    let in_range: Vec<Buy> = all_buys.iter().filter(|b| range.0.map(|s| s <= b.date).unwrap_or(true) && range.1.map(|e| b.date < e).unwrap_or(true)).cloned().collect();
     // direct prices commodity -> [(date, price in T)]
     let mut prices: HashMap<&str, Vec<(u32, Decimal)>> = HashMap::new();
-    for b in buys {
+    for b in all_buys {
         if let Some(p) = b.price {
             prices.entry(b.commodity).or_default().push((b.date, p));
         }
@@ -56,7 +58,7 @@ fn twin(buys: &[Buy], now: Option<NaiveDate>, t_precision: bool) -> Option<Bal> 
     };
     // postings: (date, account, qty, commodity)
     let mut postings: Vec<(u32, &str, Decimal, &str)> = Vec::new();
-    for b in buys {
+    for b in &in_range {
         postings.push((b.date, b.account, b.qty, b.commodity));
         match b.price {
             Some(p) => postings.push((b.date, "Cash", -(b.qty * p), "T")),
@@ -93,7 +95,7 @@ fn twin(buys: &[Buy], now: Option<NaiveDate>, t_precision: bool) -> Option<Bal> 
     Some(out)
 }
 
-fn real(text: &str, now: Option<NaiveDate>) -> Result<Bal, String> {
+fn real(text: &str, now: Option<NaiveDate>, range: (Option<u32>, Option<u32>)) -> Result<Bal, String> {
     let arena = Bump::new();
     let mut ctx = report::ReportContext::new(&arena);
     let mut files: HashMap<PathBuf, Vec<u8>> = HashMap::new();
@@ -102,7 +104,7 @@ fn real(text: &str, now: Option<NaiveDate>) -> Result<Bal, String> {
     let mut ledger = report::process(&mut ctx, loader, &report::ProcessOptions::default()).map_err(|e| format!("ledger rejected: {}", e))?;
     let target = ctx.commodity("T").ok_or("no commodity T")?;
     let strategy = match now { Some(now) => report::query::ConversionStrategy::UpToDate { now }, None => report::query::ConversionStrategy::Historical };
-    let q = report::query::BalanceQuery { conversion: Some(report::query::Conversion { strategy, target }), date_range: Default::default() };
+    let q = report::query::BalanceQuery { conversion: Some(report::query::Conversion { strategy, target }), date_range: report::query::DateRange { start: range.0.map(day), end: range.1.map(day) } };
     let b = ledger.balance(&ctx, &q).map_err(|e| format!("{}", e))?;
     let mut out = Bal::new();
     for (a, am) in b.into_owned().into_vec() {
@@ -143,11 +145,13 @@ pub fn run(_args: &[String]) -> i32 {
             for t_precision in [false, true] {
                 let text = render(&buys, t_precision);
                 for now in dates {
+                  for range in [(None, None), (Some(6), None), (None, Some(15)), (Some(6), Some(16)), (Some(21), Some(25))] {
+                    if range != (None, None) && scale != d("1") { continue; }
                     evaluated += 1;
                     let now_d = now.map(day);
-                    let want = twin(&buys, now_d, t_precision);
-                    let got = real(&text, now_d);
-                    let desc = format!("{}query: balance -X T {}", text, match now_d { Some(x) => format!("--now {}", x), None => "--historical".into() });
+                    let want = twin(&buys, now_d, t_precision, range);
+                    let got = real(&text, now_d, range);
+                    let desc = format!("{}query: balance -X T {} --start {:?} --end {:?}", text, match now_d { Some(x) => format!("--now {}", x), None => "--historical".into() }, range.0, range.1);
                     let problem = match (&want, &got) {
                         (_, Err(e)) if e.starts_with("ledger rejected") => Some(e.clone()),
                         (_, Err(e)) if e.starts_with("UNCONVERTED") => Some(format!("an amount was left unconverted: {}", e)),
@@ -159,6 +163,7 @@ pub fn run(_args: &[String]) -> i32 {
                     if let Some(p) = problem {
                         if bad.len() < 10 { bad.push((desc, p)); }
                     }
+                  }
                 }
             }
         }
